@@ -164,10 +164,13 @@ func ParseUid(s string) Uid {
 	return uid
 }
 
-// ParseUid32 parses base32-encoded string into Uid.
+// base32Lower is the unpadded base32 encoding with the lowercase alphabet: the form String32 produces.
+var base32Lower = base32.NewEncoding("abcdefghijklmnopqrstuvwxyz234567").WithPadding(base32.NoPadding)
+
+// ParseUid32 parses base32-encoded string, as produced by String32, into Uid.
 func ParseUid32(s string) Uid {
 	var uid Uid
-	if data, err := base32.StdEncoding.WithPadding(base32.NoPadding).DecodeString(s); err == nil {
+	if data, err := base32Lower.DecodeString(s); err == nil {
 		uid.UnmarshalBinary(data)
 	}
 	return uid
